@@ -46,4 +46,71 @@ theorem world_child_equiv (g : Tf ℝ) (hg : g.rot.IsUnit) (xp : Tf ℝ) (xdp : 
   rw [doTf_pos_sub, hrot, hrot2, rotate_quatMul, rotate_quatMul, rotate_cross_unit _ _ hg,
     ← rotate_add, ← rotate_add, ← rotate_add]
 
+
+/-- `kinematics.forward` as a function of the per-link inputs (what `scan.link_types` hands out) -/
+noncomputable def forwardIns (s : Sys ℝ) (ins : List (LinkIn ℝ)) : List (Tf ℝ × Motion ℝ) :=
+  (scanFwd world s.parents ((s.links.zip ins).map linkArg)).map
+    (fun x => (⟨x.1.pos, normalize4 x.1.rot⟩, x.2))
+
+theorem forward_eq_forwardIns (s : Sys ℝ) (q qd : List ℝ) :
+    forward s q qd = forwardIns s (linkSlices s.types q qd s.dofs) := rfl
+
+/-- under `LinkOK` every raw (un-normalised) world rotation of the tree scan is a unit quaternion -/
+theorem forwardRaw_unit (ps : List Int) (bs : List (LinkP ℝ × LinkIn ℝ))
+    (hok : ∀ x ∈ ps.zip bs, LinkOK x.1 x.2.1 x.2.2) :
+    ∀ x ∈ scanFwd world ps (bs.map linkArg), x.1.rot.IsUnit := by
+  have hrel := scanFwd_rel
+    (fun (x : Tf ℝ × Motion ℝ) (y : Tf ℝ) => x.1 = y ∧ y.rot.IsUnit)
+    (fun p (a : Tf ℝ × Motion ℝ) (b : LinkP ℝ × LinkIn ℝ) => a = linkArg b ∧ LinkOK p b.1 b.2)
+    world (fun par (a : LinkP ℝ × LinkIn ℝ) => Mj.bodyPose par a.1 a.2)
+    (by
+      intro p par par' a b hpar hS hroot
+      obtain ⟨ha, hk⟩ := hS
+      subst ha
+      exact link_pose_eq p par par' b.1 b.2 (linkArg b).2 hpar hk hroot)
+    ps (bs.map linkArg) bs (zip_rel_same ps bs hok)
+  generalize scanFwd world ps (bs.map linkArg) = xs at hrel
+  generalize scanFwd (fun par (a : LinkP ℝ × LinkIn ℝ) => Mj.bodyPose par a.1 a.2) ps bs = ys at hrel
+  induction hrel with
+  | nil => intro x hx; simp at hx
+  | @cons a b as bs' hab _ ih =>
+    intro x hx
+    rcases List.mem_cons.mp hx with rfl | hx
+    · rw [hab.1]; exact hab.2
+    · exact ih x hx
+
+/-- a free root: transforming its coordinates by `g` transforms its world pose by `g` and rotates
+its world velocity -/
+theorem world_root_equiv (g : Tf ℝ) (p : Int) (lk : LinkP ℝ) (l : LinkIn ℝ)
+    (hok : LinkOK p lk l) (hfree : l.typ = .free) :
+    world none (linkArg (lk, xformIn g l))
+      = (Tf.doTf g (world none (linkArg (lk, l))).1, rotM g (world none (linkArg (lk, l))).2) := by
+  obtain ⟨hp, htf, hjp, hqdl, p0, p1, p2, r0, r1, r2, r3, hq, hu⟩ := hok.free hfree
+  obtain ⟨v0, v1, v2, w0, w1, w2, hqd'⟩ : ∃ v0 v1 v2 w0 w1 w2, l.qd = [v0, v1, v2, w0, w1, w2] := by
+    match hm : l.qd, hqdl with
+    | [a, b, c, d, e, f], _ => exact ⟨a, b, c, d, e, f, rfl⟩
+  have hj : jcalc l = (⟨⟨p0, p1, p2⟩, ⟨r0, r1, r2, r3⟩⟩, ⟨⟨w0, w1, w2⟩, ⟨v0, v1, v2⟩⟩) := by
+    unfold jcalc; rw [hfree]; simp only [hq, hqd']
+  have hx : xformIn g l = { l with
+      q := [(Tf.doTf g ⟨⟨p0, p1, p2⟩, ⟨r0, r1, r2, r3⟩⟩).pos.x, (Tf.doTf g ⟨⟨p0, p1, p2⟩, ⟨r0, r1, r2, r3⟩⟩).pos.y,
+            (Tf.doTf g ⟨⟨p0, p1, p2⟩, ⟨r0, r1, r2, r3⟩⟩).pos.z, (Tf.doTf g ⟨⟨p0, p1, p2⟩, ⟨r0, r1, r2, r3⟩⟩).rot.w,
+            (Tf.doTf g ⟨⟨p0, p1, p2⟩, ⟨r0, r1, r2, r3⟩⟩).rot.x, (Tf.doTf g ⟨⟨p0, p1, p2⟩, ⟨r0, r1, r2, r3⟩⟩).rot.y,
+            (Tf.doTf g ⟨⟨p0, p1, p2⟩, ⟨r0, r1, r2, r3⟩⟩).rot.z],
+      qd := [(rotate ⟨v0, v1, v2⟩ g.rot).x, (rotate ⟨v0, v1, v2⟩ g.rot).y, (rotate ⟨v0, v1, v2⟩ g.rot).z, w0, w1, w2] } := by
+    unfold xformIn; rw [hfree, hq, hqd']
+  have hj' : jcalc (xformIn g l)
+      = (Tf.doTf g ⟨⟨p0, p1, p2⟩, ⟨r0, r1, r2, r3⟩⟩, ⟨⟨w0, w1, w2⟩, rotate ⟨v0, v1, v2⟩ g.rot⟩) := by
+    rw [hx]; unfold jcalc; simp only [hfree]
+  have hpl : ∀ J : Tf ℝ, placeJoint lk J = J := by
+    intro J
+    rw [placeJoint_eq lk J hok.jointRot, htf, hjp]
+    simp only [stackPose, Tf.id_doTf]
+    cases J with | mk jp jr =>
+    congr 1
+    apply V3.ext' <;> simp [rotate, V3.dot, V3.cross, Q4.vec, V3.zero]
+  simp only [world, linkArg, hj, hj', hpl, htf, Tf.id, rotate_one, rotM]
+  congr 1
+  congr 1
+  simp only [Tf.doTf, rotate_quatMul]
+
 end Brax.KinEquiv
